@@ -21,25 +21,25 @@
 EXTENDS Text
 
 (* ---- line splitting: LF, CRLF, CR only ---- *)
-RECURSIVE Split(_, _, _, _)
-Split(s, i, start, acc) ==
+\* (the scan for the next terminator returns before the recursion over lines continues, so the depth of
+\* evaluation is bounded by the number of lines plus the longest line, not by the length of the text)
+NL == {SC.cr, SC.lf}
+TermLen(s, i) == IF Ch(s, i) = SC.cr /\ i < Len(s) /\ Ch(s, i + 1) = SC.lf THEN 2 ELSE 1
+RECURSIVE Split(_, _, _)
+Split(s, start, acc) ==
+    LET i == RunNot(s, start, NL) IN
     IF i > Len(s) THEN Append(acc, SubSeq(s, start, Len(s)))
-    ELSE IF Ch(s, i) = SC.cr /\ i < Len(s) /\ Ch(s, i + 1) = SC.lf
-         THEN Split(s, i + 2, i + 2, Append(acc, SubSeq(s, start, i - 1)))
-    ELSE IF Ch(s, i) \in {SC.cr, SC.lf} THEN Split(s, i + 1, i + 1, Append(acc, SubSeq(s, start, i - 1)))
-    ELSE Split(s, i + 1, start, acc)
-Lines(s) == Split(s, 1, 1, <<>>)
+    ELSE Split(s, i + TermLen(s, i), Append(acc, SubSeq(s, start, i - 1)))
+Lines(s) == Split(s, 1, <<>>)
 
 \* the same with terminators kept (what iterating over a text file opened with newline='' or
 \* str.splitlines(keepends=True) restricted to LF/CRLF/CR would give)
-RECURSIVE SplitKeep(_, _, _, _)
-SplitKeep(s, i, start, acc) ==
+RECURSIVE SplitKeep(_, _, _)
+SplitKeep(s, start, acc) ==
+    LET i == RunNot(s, start, NL) IN
     IF i > Len(s) THEN (IF start <= Len(s) THEN Append(acc, SubSeq(s, start, Len(s))) ELSE acc)
-    ELSE IF Ch(s, i) = SC.cr /\ i < Len(s) /\ Ch(s, i + 1) = SC.lf
-         THEN SplitKeep(s, i + 2, i + 2, Append(acc, SubSeq(s, start, i + 1)))
-    ELSE IF Ch(s, i) \in {SC.cr, SC.lf} THEN SplitKeep(s, i + 1, i + 1, Append(acc, SubSeq(s, start, i)))
-    ELSE SplitKeep(s, i + 1, start, acc)
-LinesKeep(s) == SplitKeep(s, 1, 1, <<>>)
+    ELSE SplitKeep(s, i + TermLen(s, i), Append(acc, SubSeq(s, start, i + TermLen(s, i) - 1)))
+LinesKeep(s) == SplitKeep(s, 1, <<>>)
 
 (* ---- one token at position p of a line ---- *)
 \* end (exclusive) of a string body starting at p (just after the opening quote), 0 if unterminated
@@ -77,7 +77,7 @@ MkTok(type, text, line, col) == [type |-> type, text |-> text, line |-> line, co
 RECURSIVE LexLine(_, _, _, _, _)
 LexLine(s, ln, p, triple, acc) ==
     IF p > Len(s) THEN acc
-    ELSE IF Ch(s, p) \in Blanks THEN LexLine(s, ln, p + 1, triple, acc)
+    ELSE IF Ch(s, p) \in Blanks THEN LexLine(s, ln, RunIn(s, p, Blanks), triple, acc)
     ELSE LET t == Tok(s, p, triple)
          IN LexLine(s, ln, t[2], triple, Append(acc, MkTok(t[1], SubSeq(s, p, t[2] - 1), ln, p - 1)))
 RECURSIVE LexLines(_, _, _, _)
